@@ -223,6 +223,10 @@ C04_Update(B, T, v, n, out) ==
   \cup (IF out = "ok" /\ a \in {"Idle", "ChargeQueueing"} /\ ~n.was_empty /\ ~(n.spent_pos /\ n.en_down)
            /\ ~("idle_rate_zero" \in DOMAIN n /\ n.idle_rate_zero)     \* the definition itself says idling costs nothing
         THEN {V("C04", "idling_expends", k, v)} ELSE {})
+     \* "a vehicle that lacks the energy for its next movement stops and goes out of service instead of moving on":
+     \* the update in which the tank / battery runs dry does not change the position
+  \cup (IF B.veh[v].act \in Moving /\ ~B.veh[v].empty /\ T.veh[v].empty /\ T.veh[v].pos # B.veh[v].pos
+        THEN {V("C04", "stops_when_out_of_energy", k, v)} ELSE {})
   \cup (IF a \in Charging /\ n.en_down THEN {V("C04", "charging_never_lowers", k, v)} ELSE {})
   \cup (IF ~n.gain_le_plug THEN {V("C04", "charge_within_plug_power", k, v)} ELSE {})
   \cup (IF n.gain_pos /\ a \notin Charging THEN {V("C04", "gain_only_when_charging", a, v)} ELSE {})
